@@ -419,8 +419,10 @@ namespace vr
             size_t sp = f.rfind(' ');
             if (sp != std::string::npos && f.find('/', sp) != std::string::npos)
                 f = f.substr(0, sp);
-            if (f.find("Pistache::") != std::string::npos)
-                return strip_args(f);
+            // judge by the function's own name, not by the types in its template arguments
+            std::string bare = strip_args(f);
+            if (bare.find("Pistache::") != std::string::npos)
+                return bare;
             if (firstAny.empty() && f.find("__interceptor") == std::string::npos && f.find("__sanitizer") == std::string::npos)
                 firstAny = strip_args(f);
         }
